@@ -58,7 +58,12 @@ RULES = [
     # and its instance uses that very slot
     ("hav", "(h ?a (v 1))", "(h (v 1) ?a)", [1], [("c",), ("(v 1)",), ("(g (v 1))",), ("(f 1 3)",), ("(v 3)",), ("(f 3 1)",)]),
     ("haf", "(h ?a (f 1 2))", "(g ?a)", [1, 2], [("(v 1)",), ("(v 2)",), ("(f 2 1)",), ("(g (f 1 2))",), ("c",)]),
+    # a repeated variable bound to two spellings of a class whose symmetry group needs TWO generators
+    # (two symmetric children): the second spelling differs by the product of both (planted with two
+    # replacements, see DOUBLE)
+    ("hidem4", "(h ?a ?a)", "?a", [], [("(h (f 1 2) (f 3 4))",)]),
 ]
+DOUBLE = {"hidem4": [("(f 1 2)", "(f 2 1)"), ("(f 3 4)", "(f 4 3)")]}
 # balanced alias unions (same free slots on both sides, no redundancy by themselves)
 ALIAS = [("(p 2 1)", "(g (p 2 1))"), ("c", "d"), ("(v 3)", "(g (v 3))"), ("(f 2 3)", "(g (f 2 3))"), ("(f 2 3)", "(f 3 2)"), ("(g c)", "d"),
          ("(v 1)", "(g (v 1))"), ("(f 1 2)", "(f 2 1)"), ("(f 1 3)", "(g (f 1 3))"), ("(f 1 2)", "(g (f 1 2))")]
@@ -92,6 +97,15 @@ def build(rule):
                     if vs:
                         planted += vs[:2]
                         used.append((a, b))
+            if name in DOUBLE:
+                # ONLY variants in which BOTH symmetric children are respelled: the left side is then
+                # represented through the product of two generators of the class's symmetry group
+                dbl = [(parse(x), parse(y)) for x, y in DOUBLE[name]]
+                planted, used = [li], list(dbl)
+                for v in replace_sub(li, dbl[0][0], dbl[0][1]):
+                    planted += [w for w in replace_sub(v, dbl[1][0], dbl[1][1])
+                                if replace_sub(w, dbl[0][1], dbl[0][0]) and w != li and
+                                   json.dumps(w).count(json.dumps(dbl[0][1])) == json.dumps(w).count(json.dumps(dbl[1][1]))]
             for (a, b) in used:
                 k = (ti(a), ti(b))
                 if k not in eqidx:
